@@ -21,9 +21,13 @@
 //	close(5)                                          and closes it with io.EOF
 //
 // Public API only, AF_UNIX socket pairs (no listener needed). The race needs the scheduler's help:
-// the test repeats the history until it happens (typically once in a few thousand rounds on a
-// loaded machine, rarer on an idle one) and FAILS when it does; it is skipped as inconclusive when
-// it never happened within its budget.
+// the test repeats the history for its budget (90 s, REPRO_SECONDS overrides) and FAILS as soon as
+// the race happens. Before the repair (/repo 16fe2c4: every registration gets a number that is
+// stored in the epoll data next to the descriptor, the poller drops an event whose number differs
+// from the connection found under the descriptor) it happened once in a few thousand rounds on a
+// loaded machine (round 1216 after 6 s; after 86 s in a second run). On 16fe2c4: 70525 rounds in
+// 240 s under load, never. The test is kept as a regression test: it PASSES when the race never
+// happens within the budget.
 //
 //	cd /verif && GOFLAGS=-mod=mod GOPROXY=off GOMAXPROCS=2 go test -count=1 -timeout 10m ./notes/repro/nbio_stale_epoll_event_closes_new_conn_on_reused_fd/
 package repro
@@ -33,6 +37,7 @@ import (
 	"io"
 	"net"
 	"os"
+	"strconv"
 	"syscall"
 	"testing"
 	"time"
@@ -71,7 +76,11 @@ func TestNewConnectionOnReusedDescriptorIsNotClosedByStaleEvent(t *testing.T) {
 	}
 	defer e.Stop()
 
-	deadline := time.Now().Add(4 * time.Minute)
+	budget := 90 * time.Second
+	if v, err := strconv.Atoi(os.Getenv("REPRO_SECONDS")); err == nil && v > 0 {
+		budget = time.Duration(v) * time.Second
+	}
+	deadline := time.Now().Add(budget)
 	rounds := 0
 	for time.Now().Before(deadline) {
 		rounds++
@@ -98,5 +107,5 @@ func TestNewConnectionOnReusedDescriptorIsNotClosedByStaleEvent(t *testing.T) {
 		}
 		_ = cb.Close()
 	}
-	t.Skipf("inconclusive: the race did not happen in %d rounds", rounds)
+	t.Logf("the race did not happen in %d rounds (%v)", rounds, budget)
 }
